@@ -574,9 +574,17 @@ impl<'tcx> Ctx<'tcx> {
                 TerminatorKind::Call { func, args, destination, target, fn_span, .. } => {
                     let args_s: Vec<String> =
                         args.iter().map(|a| self.operand_json(body, &a.node)).collect();
+                    // the macros the call was expanded from, innermost first (`panic`, `assert`, `debug_assert`)
+                    let macs: Vec<String> = term
+                        .source_info
+                        .span
+                        .macro_backtrace()
+                        .take(8)
+                        .map(|e| esc(&e.kind.descr().to_string()))
+                        .collect();
                     write!(
                         s,
-                        "{{\"k\":\"call\",{},\"args\":[{}],\"dst\":{},\"t\":{},\"line\":{},\"exp\":{},\"span\":{}}}",
+                        "{{\"k\":\"call\",{},\"args\":[{}],\"dst\":{},\"t\":{},\"line\":{},\"exp\":{},\"mac\":[{}],\"span\":{}}}",
                         self.callee_json(body, func),
                         args_s.join(","),
                         self.place_json(body, destination),
@@ -586,6 +594,7 @@ impl<'tcx> Ctx<'tcx> {
                         },
                         tline,
                         fn_span.from_expansion() || texp,
+                        macs.join(","),
                         esc(&span_str(tcx, term.source_info.span))
                     )
                     .unwrap()
